@@ -1,6 +1,7 @@
 import PgBifrost.Proofs.Parser.Total
 import PgBifrost.Proofs.Parser.RoundTrip
 import PgBifrost.Proofs.ParserSrc
+import PgBifrost.Gen.MessageSrc
 /-!
 # C09 — decoder fidelity for everything test_decoding can print (property theorems)
 
@@ -156,5 +157,17 @@ def expectedPrologue : List String := [
   "}"]
 
 theorem parser_prologue_as_in_source : PgBifrost.Gen.ParserSrc.prologue = expectedPrologue := rfl
+
+/-- `replication.XLogDataToWalMessage` as written: a fresh ParseResult (state `initial`, token start 0), `ParsePrelude`
+(= `parse(true)`) then `ParseColumns` (= `parse(false)`) on the same result, an error of either returned at once; the
+WalMessage takes its WAL start, server WAL end and server time (milliseconds) from the XLogData, the parse result as is,
+and empty delivery and partition keys. The composition is the model's `parseIdx`. -/
+theorem xlog_to_walmessage_as_in_source :
+    PgBifrost.Gen.MessageSrc.parseIdx = parseIdx ∧
+    PgBifrost.Gen.MessageSrc.initialState =
+      "ParseState{Msg: &msg, Current: parseStateInitial, Prev: parseStateInitial, TokenStart: 0, OldKey: false}" ∧
+    PgBifrost.Gen.MessageSrc.walMessageFields =
+      ["uint64(xld.WALStart)", "uint64(xld.ServerWALEnd)", "xld.ServerTime.UnixMilli()", "\"\"", "pr", "\"\""] :=
+  ⟨rfl, rfl, rfl⟩
 
 end PgBifrost.Props.C09
